@@ -446,3 +446,41 @@ func init() {
 			}},
 	)
 }
+
+// ---------------------------------------------------------------- TransEscape
+
+//go:linkname zapJSONSafeAddString go.uber.org/zap/zapcore.(*jsonEncoder).safeAddString
+func zapJSONSafeAddString(enc unsafe.Pointer, s string)
+
+func genHostileString(r *Rand) []byte {
+	n := r.Intn(10)
+	var b []byte
+	for i := 0; i < n; i++ {
+		switch r.Intn(8) {
+		case 0:
+			b = append(b, Pick(r, []byte{'"', '\\', '\n', '\r', '\t', 0, 1, 0x1f, 0x7f, ' '}))
+		case 1:
+			b = append(b, []byte(Pick(r, []string{"é", "€", "😀", "�", " "}))...)
+		case 2:
+			b = append(b, Pick(r, []byte{0x80, 0xbf, 0xc0, 0xc2, 0xe0, 0xed, 0xef, 0xf0, 0xf4, 0xf5, 0xff, 0xa0, 0x9f, 0x90, 0x8f}))
+		default:
+			b = append(b, byte('a'+r.Intn(26)))
+		}
+	}
+	return b
+}
+
+func init() {
+	trFns = append(trFns,
+		// args: appendTo, decodeRune (function values: opaque), buf, s — the real call is (*jsonEncoder).safeAddString(s)
+		trFn{table: "TransEscape", name: "safeAppendStringLike",
+			gen: func(r *Rand) ([]TV, []trFld) {
+				return []TV{tvList(nil), tvList(nil), tvBytes(r.Bytes(3)), tvBytes(genHostileString(r))}, nil
+			},
+			run: func(args []TV, _ []trFld) ([]TV, []trFld) {
+				j := newJSONEnc([]trFld{{"buf", args[2]}})
+				zapJSONSafeAddString(j.ptr, string(args[3].bytes()))
+				return []TV{tvBytes(append([]byte{}, j.buf.Bytes()...))}, nil
+			}},
+	)
+}
